@@ -99,6 +99,10 @@ def read_constants(cfg: str) -> dict:
           'ctrl': sorted(get('CtrlAt', frozenset()))}
 
 
+def _is_dna(dna, value: int) -> bool:
+  return isinstance(dna, pg.DNA) and dna.value == value and not dna.children
+
+
 class Divergence(Exception):
 
   def __init__(self, clause: str, detail: str, **sig):
@@ -270,9 +274,9 @@ class Worker:
       tid, d = want[1], want[2]
       if fid != tid:
         bad(f'feedback.id = {fid}', got='id')
-      if dna != pg.DNA(d - 1) or fb.get_trial().dna != pg.DNA(d - 1):
+      if not _is_dna(dna, d - 1) or not _is_dna(fb.get_trial().dna, d - 1):
         bad(f'feedback.dna = {dna!r}', got='dna')
-      if example != pg.Dict(x=self.values[d - 1]):
+      if not (isinstance(example, pg.Dict) and list(example.keys()) == ['x'] and example.x == self.values[d - 1]):
         bad(f'example = {example!r}', got='example')
       if fb.get_trial().id != tid:
         bad(f'get_trial().id = {fb.get_trial().id}', got='trial')
@@ -336,7 +340,7 @@ class Worker:
       tid = w['id']
       if t.id != tid:
         raise Divergence('id', f'trial #{tid} has id {t.id}')
-      if t.dna != pg.DNA(w['dna'] - 1):
+      if not _is_dna(t.dna, w['dna'] - 1):
         raise Divergence('dna', f'trial {tid}: dna {t.dna!r}, spec {w["dna"] - 1}')
       if t.status != w['status']:
         raise Divergence('status', f'trial {tid}: status {t.status}, spec {w["status"]}', want=w['status'])
@@ -373,7 +377,9 @@ class Worker:
     if got_best != st['best']:
       raise Divergence('best', f'best_trial {got_best}, spec {st["best"]}',
                        kind='none' if not got_best or not st['best'] else 'other')
-    self.check_summary(res, st)
+    if prev is None or prev['cnt'] != st['cnt'] or prev['best'] != st['best'] or len(prev['trials']) != len(st['trials']) \
+        or st['act'][0] in ('Done', 'Call', 'Skip', 'SkipOnExc', 'Next'):
+      self.check_summary(res, st)
     lu = res.last_updated
     comp = st['cnt']['comp']
     if comp > 0 and not isinstance(lu, datetime.datetime):
